@@ -310,7 +310,7 @@ unregister('string')
 @constructor('string', label=('function', 'constructor function'),
              nargs=(0, 1), sequence_types=('item()?', 'xs:string'))
 def cast__string_type(self: XPathConstructor, value: ta.AtomicType) -> str:
-    return self.string_value(value)
+    return self.atomic_string_value(value)
 
 
 @method('string')
@@ -339,11 +339,11 @@ def evaluate__string_type_and_function(self: XPathConstructor, context: ta.Conte
         if not self:
             if context is None:
                 raise self.missing_context()
-            return self.string_value(context.item)
-        return self.string_value(self.get_argument(context))
+            return self.atomic_string_value(context.item)
+        return self.atomic_string_value(self.get_argument(context))
     else:
         item = self.get_argument(context)
-        return [] if item is None else self.string_value(item)
+        return [] if item is None else self.atomic_string_value(item)
 
 
 # Case 3 and 4: In XPath 2.0 the XSD 'QName' and 'dateTime' types have special
@@ -468,7 +468,7 @@ def evaluate__datetime_type_and_function(self: XPathConstructor, context: ta.Con
 
 @constructor('untypedAtomic')
 def cast__untyped_atomic(self: XPathConstructor, value: ta.AtomicType) -> UntypedAtomic:
-    return UntypedAtomic(self.string_value(value))
+    return UntypedAtomic(self.atomic_string_value(value))
 
 
 @method('untypedAtomic')
